@@ -1,7 +1,128 @@
-/- Driver entry for property C16: one request payload in, one canonical response line out. -/
-import Molli.Util.Basic
-namespace Molli.Driver.C16
+/-
+Driver entry for property C16: one request payload in, one canonical response line out.
 
-def handle (_payload : String) : String := "err:not-implemented"
+  h atoms=<Z:charge:spin:cc:hint,…> bonds=<a1-a2:btype:forder,…|-> sel=<*|i,j,…|->
+      (cc = 1 for AtomType.CoordinationCenter, hint `-` = none; sel `*` = the default atom list)
+      → n=<atoms after> k=<hydrogens per old atom> new=<centre-newatom,…|-> hints=<hint per old atom after>
+  g z=<Z of the centre> k=<number of hydrogens> a=<x,y,z> w=<x,y,z|-> hs=<x,y,z;…>      (exact rationals p/q)
+      → d=<0|1 per hydrogen: |dist² − L²·const| ≤ 2·10⁻⁵·L²> away=<0|1 per hydrogen | -> ang=<0|1|->
+        with L = radius(Z) + radius(H) and the exact constants of `Molli.Props.C16`
+-/
+import Molli.Util.Basic
+import Molli.Model.Hydrogens
+import Molli.Gen.Valence
+namespace Molli.Driver.C16
+open Molli.Model.Graph Molli.Model.Hydrogens Molli.Util Molli.Gen.Valence
+
+def kv (ws : List String) (k : String) : Option String :=
+  ws.findSome? (fun w => match w.splitOn "=" with
+    | [a, b] => if a == k then some b else none
+    | _ => none)
+
+def items (s : String) : List String := if s == "-" || s == "" then [] else s.splitOn ","
+
+def parseRat? (s : String) : Option Rat :=
+  match s.splitOn "/" with
+  | [p] => p.toInt?.map (fun i => (i : Rat))
+  | [p, q] => do
+    let a ← p.toInt?
+    let b ← q.toNat?
+    if b = 0 then none else some (mkRat a b)
+  | _ => none
+
+def parseAtom? (s : String) : Option HAtom :=
+  match s.splitOn ":" with
+  | [z, q, sp, cc, hint] => do
+    let z ← z.toNat?
+    let q ← q.toInt?
+    let sp ← sp.toInt?
+    let hint ← (if hint == "-" then some none else hint.toNat?.map some)
+    some ⟨z, q, sp, cc == "1", hint⟩
+  | _ => none
+
+def parseBond? (s : String) : Option (Bond Rat) :=
+  match s.splitOn ":" with
+  | [ends, bt, fo] =>
+    match ends.splitOn "-" with
+    | [a, b] => do
+      let a1 ← a.toNat?
+      let a2 ← b.toNat?
+      let bt ← bt.toNat?
+      let fo ← parseRat? fo
+      some ⟨a1, a2, bondOrder bt fo⟩
+    | _ => none
+  | _ => none
+
+def zeroFrame : Frame Rat := ⟨⟨0, 0, 0⟩, ⟨0, 0, 0⟩, ⟨⟨0, 0, 0⟩, ⟨0, 0, 0⟩, ⟨0, 0, 0⟩⟩⟩
+
+def showNats (l : List Nat) : String := if l.isEmpty then "-" else ",".intercalate (l.map toString)
+
+def runH (atoms : List HAtom) (bonds : List (Bond Rat)) (sel : Option (List Nat)) : String :=
+  let m : Mol Rat := ⟨atoms, bonds, atoms.map (fun _ => ⟨0, 0, 0⟩), atoms.map (fun _ => none)⟩
+  let cs := match sel with | some l => l | none => centres tables m
+  let r := addHSeq tables id (fun _ => zeroFrame) cs m
+  let n := atoms.length
+  let newB := r.bonds.drop bonds.length
+  let ks := (List.range n).map (fun j => (newB.filter (fun b => b.a1 == j)).length)
+  let newS := if newB.isEmpty then "-" else ",".intercalate (newB.map (fun b => s!"{b.a1}-{b.a2}"))
+  let hints := (r.atoms.take n).map (fun a => match a.hint with | some h => toString h | none => "-")
+  s!"n={r.atoms.length} k={showNats ks} new={newS} hints={",".intercalate hints} rows={r.coords.length} charges={r.charges.length}"
+
+def parseV3? (s : String) : Option (V3 Rat) :=
+  match (s.splitOn ",").map parseRat? with
+  | [some x, some y, some z] => some ⟨x, y, z⟩
+  | _ => none
+
+def absR (q : Rat) : Rat := if q < 0 then -q else q
+
+def b01 (b : Bool) : String := if b then "1" else "0"
+
+def runG (z k : Nat) (a : V3 Rat) (w : Option (V3 Rat)) (hs : List (V3 Rat)) : String :=
+  let L := tables.radius z + tables.radius tables.hydrogen
+  let tol := (2 / 100000 : Rat) * (L * L)
+  let consts : List Rat :=
+    match k with
+    | 1 => [1]
+    | 2 => [tables.c2 * tables.c2 + tables.s2 * tables.s2, tables.c2 * tables.c2 + tables.s2 * tables.s2]
+    | 3 => (tables.tet.drop 1).map V3.norm2
+    | _ => tables.tet.map V3.norm2
+  let ds := (hs.zip consts).map (fun (hc : V3 Rat × Rat) => decide (absR ((hc.1.sub a).norm2 - L * L * hc.2) ≤ tol))
+  let aw := match w with
+    | some w => "".intercalate (hs.map (fun (h : V3 Rat) => b01 (decide ((h.sub a).dot (w.sub a) < 0))))
+    | none => "-"
+  let ang := match k, hs with
+    | 2, [h1, h2] => b01 (decide (absR ((h1.sub a).dot (h2.sub a) - L * L * (tables.c2 * tables.c2 - tables.s2 * tables.s2)) ≤ tol))
+    | _, _ => "-"
+  if hs.length != (if k ≤ 4 then k else 4) then "err:count" else
+  s!"d={"".intercalate (ds.map b01)} away={aw} ang={ang}"
+
+def handle (payload : String) : String :=
+  let ws := words payload
+  match ws with
+  | "h" :: rest =>
+    match (kv rest "atoms").map (fun s => (items s).map parseAtom?), (kv rest "bonds").map (fun s => (items s).map parseBond?),
+        kv rest "sel" with
+    | some as, some bs, some sel =>
+      match as.mapM id, bs.mapM id with
+      | some atoms, some bonds =>
+        if !bonds.all (fun b => b.a1 < atoms.length && b.a2 < atoms.length) then "err:bond-out-of-range" else
+        if sel == "*" then runH atoms bonds none
+        else match ((items sel).map String.toNat?).mapM id with
+          | some l => if l.all (· < atoms.length) then runH atoms bonds (some l) else "err:sel"
+          | none => "err:parse"
+      | _, _ => "err:parse"
+    | _, _, _ => "err:parse"
+  | "g" :: rest =>
+    match (kv rest "z").bind String.toNat?, (kv rest "k").bind String.toNat?, (kv rest "a").bind parseV3?, kv rest "w", kv rest "hs" with
+    | some z, some k, some a, some w, some hs =>
+      match ((if hs == "-" then [] else hs.splitOn ";").map parseV3?).mapM id with
+      | some hl =>
+        if w == "-" then runG z k a none hl
+        else match parseV3? w with
+          | some wv => runG z k a (some wv) hl
+          | none => "err:parse"
+      | none => "err:parse"
+    | _, _, _, _, _ => "err:parse"
+  | _ => "err:unknown-op"
 
 end Molli.Driver.C16
